@@ -221,7 +221,9 @@ def pick_fault(r: Rng, ref_res: dict, kinds: typing.Sequence[str]) -> typing.Opt
             return None
         f = {"kind": kind, "at": biased(M)}
         if kind == "oserror":
-            f["errno"] = r.choice(["ENOSPC", "EIO", "EMFILE", "EROFS", "EINTR", "EDQUOT"])
+            # (EPERM / EACCES: the call is refused although the mode bits would allow it - a file system that does not
+            # support it, an immutable attribute, a bind mount)
+            f["errno"] = r.choice(["ENOSPC", "EIO", "EMFILE", "EROFS", "EINTR", "EDQUOT", "EPERM", "EACCES"])
         return f
     if kind in ("write_oserror", "write_crash"):
         files = [i for i, n in enumerate(wpf) if n > 0]
